@@ -88,3 +88,18 @@ Theorem C07_arnoldi_relation :
   (forall j, j < completed k -> relation vzero vadd vscale Aop (s_T st') (s_vs st') j) /\
   (forall i j, S j < i -> s_T st' i j = kzero).
 Proof. exact kexp_full_relation. Qed.
+
+(* The cached operator product (w_next) is part of the control state.  For every variant, every oracle
+   stream and every max_krylov_dim: the loop executes one trace entry per counted iteration, and every
+   iteration j orthogonalises the operator product of ITS OWN newest Lanczos vector v_j — either freshly
+   computed or the product cached by the failed confirmation of iteration j - 1, which was computed from
+   v_j.  (The harness logs, per iteration, on which vector op was called and which product was used, and
+   compares with this trace; a product computed from another vector is `stale-operator-product`.) *)
+Theorem C07_cached_product_is_fresh :
+  forall (A : Type) (ar : Arith A) (fixed : variant) (n2 err1 err2 err2c : nat -> A) (norm_tol exp_tol : A)
+         (max_dim : nat),
+  Forall (fun e => fst (snd e) = fst e)
+         (ktrace ar fixed n2 err1 err2 err2c norm_tol exp_tol max_dim 0 None) /\
+  (forall r, kloop ar fixed n2 err1 err2 err2c norm_tol exp_tol max_dim 0 = Ok r ->
+     length (ktrace ar fixed n2 err1 err2 err2c norm_tol exp_tol max_dim 0 None) = k_iters r).
+Proof. exact cached_product_fresh. Qed.
